@@ -37,16 +37,16 @@ Definition veq (a b : vec3) : Prop := vx a == vx b /\ vy a == vy b /\ vz a == vz
 
 (* [rnd] is a representation hook applied after the arithmetic steps of the code (each of which
    rounds in binary64).  Every theorem is stated for a hook with [forall x, rnd x == x] (identity,
-   Qred); the correspondence checker evaluates the model with [rnd_bits 48] (48 significant
-   bits, relative error < 2^-46 per step, five orders of magnitude below the comparison tolerance) because vm_compute has no fast arithmetic on the 1000-bit rationals that the exact
+   Qred); the correspondence checker evaluates the model with [rnd_bits 44] (44 significant
+   bits, relative error < 2^-42 per step, three to four orders of magnitude below the comparison tolerance) because vm_compute has no fast arithmetic on the 1000-bit rationals that the exact
    evaluation of a four-step history produces. *)
 Definition rnd_bits (K : Z) (x : Q) : Q :=
   let n := Qnum x in
   let d := Zpos (Qden x) in
   if (n =? 0)%Z then 0 else
-  (* keep 2K leading bits of numerator and denominator, then a K-bit quotient *)
-  let sn := Z.max 0 (Z.log2 (Z.abs n) - 2 * K) in
-  let sd := Z.max 0 (Z.log2 d - 2 * K) in
+  (* keep K+16 leading bits of numerator and denominator, then a K-bit quotient *)
+  let sn := Z.max 0 (Z.log2 (Z.abs n) - (K + 16)) in
+  let sd := Z.max 0 (Z.log2 d - (K + 16)) in
   let n1 := Z.shiftr n sn in
   let d1 := Z.shiftr d sd in
   let s := (K - (Z.log2 (Z.abs n1) - Z.log2 d1))%Z in
@@ -185,11 +185,12 @@ Definition interp_at (gx gy gz : list Q) (n : n3) (ra : arr) (p : vec3) : nat ->
 Definition cpt (lo hi : Q) (n i : nat) : Q := lo + (qnat i + (1 # 2)) * ((hi - lo) / qnat n).
 
 (* back-rotated centre of target cell (i,j,k), relative to the centre of the original region *)
-Definition back_pos (orig : fld) (R : mat3) (n' : n3) (i j k : nat) : vec3 :=
-  let lo' := new_pmin R orig in let hi' := new_pmax R orig in
+Definition back_pos_at (lo' hi' ctr : vec3) (Rt : mat3) (n' : n3) (i j k : nat) : vec3 :=
   let y := V3 (cpt (vx lo') (vx hi') (n0 n') i) (cpt (vy lo') (vy hi') (n1 n') j)
               (cpt (vz lo') (vz hi') (n2 n') k) in
-  mapply (mtrans R) (vrnd (vsub y (centre orig))).
+  mapply Rt (vrnd (vsub y ctr)).
+Definition back_pos (orig : fld) (R : mat3) (n' : n3) (i j k : nat) : vec3 :=
+  back_pos_at (new_pmin R orig) (new_pmax R orig) (centre orig) (mtrans R) n' i j k.
 
 Definition grids (orig : fld) : list Q * list Q * list Q :=
   let c := centre orig in
@@ -198,9 +199,20 @@ Definition grids (orig : fld) : list Q * list Q * list Q :=
    grid1 (vz (f_pmin orig)) (vz (f_pmax orig)) (vz c) (n2 (f_n orig))).
 
 Definition rotated_val (nv : nat) (perm : list nat) (orig : fld) (R : mat3) (n' : n3) : arr :=
-  let '(gx, gy, gz) := grids orig in
+  fun i j k =>
+    let g := grids orig in
+    interp_at (fst (fst g)) (snd (fst g)) (snd g) (f_n orig)
+              (memo4 (f_n orig) nv (rot_arr nv R perm (f_val orig))) (back_pos orig R n' i j k).
+
+(* the same function with everything that does not depend on the target cell computed once
+   (convertible with rotated_val: lemma rotated_val_fast_eq, by reflexivity); used by the checker *)
+Definition rotated_val_fast (nv : nat) (perm : list nat) (orig : fld) (R : mat3) (n' : n3) : arr :=
+  let g := grids orig in
+  let gx := fst (fst g) in let gy := snd (fst g) in let gz := snd g in
   let ra := memo4 (f_n orig) nv (rot_arr nv R perm (f_val orig)) in
-  fun i j k => interp_at gx gy gz (f_n orig) ra (back_pos orig R n' i j k).
+  let lo' := new_pmin R orig in let hi' := new_pmax R orig in
+  let ctr := centre orig in let Rt := mtrans R in
+  fun i j k => interp_at gx gy gz (f_n orig) ra (back_pos_at lo' hi' ctr Rt n' i j k).
 
 Definition rotated_field (nv : nat) (perm : list nat) (orig : fld) (R : mat3) (n' : n3) : fld :=
   Fld (new_pmin R orig) (new_pmax R orig) n' (rotated_val nv perm orig R n').
